@@ -29,6 +29,57 @@ impl VisitMut for DerefReplacer {
         syn::visit_mut::visit_expr_mut(self, e);
     }
 }
+struct AssignReplacer {
+    ident: String,
+    recv: syn::Expr,
+    idx: syn::Ident,
+    n: usize,
+}
+impl VisitMut for AssignReplacer {
+    fn visit_expr_mut(&mut self, e: &mut syn::Expr) {
+        syn::visit_mut::visit_expr_mut(self, e);
+        let mut rep: Option<syn::Expr> = None;
+        if let syn::Expr::Assign(a) = e {
+            if let syn::Expr::Unary(u) = &*a.left {
+                if matches!(u.op, syn::UnOp::Deref(_)) {
+                    if let syn::Expr::Path(p) = &*u.expr {
+                        if p.path.is_ident(&self.ident) {
+                            let recv = &self.recv;
+                            let idx = &self.idx;
+                            let rhs = &a.right;
+                            rep = Some(syn::parse_quote!(#recv.set_index(#idx, #rhs)));
+                        }
+                    }
+                }
+            }
+        }
+        if let syn::Expr::Binary(b) = e {
+            // compound assignment `*v op= E` (when R1 is off)
+            use syn::BinOp::*;
+            let op: Option<syn::BinOp> = match b.op {
+                SubAssign(_) => Some(syn::parse_quote!(-)), AddAssign(_) => Some(syn::parse_quote!(+)),
+                MulAssign(_) => Some(syn::parse_quote!(*)), DivAssign(_) => Some(syn::parse_quote!(/)), _ => None };
+            if let Some(op) = op {
+                if let syn::Expr::Unary(u) = &*b.left {
+                    if matches!(u.op, syn::UnOp::Deref(_)) {
+                        if let syn::Expr::Path(p) = &*u.expr {
+                            if p.path.is_ident(&self.ident) {
+                                let recv = &self.recv;
+                                let idx = &self.idx;
+                                let rhs = &b.right;
+                                rep = Some(syn::parse_quote!(#recv.set_index(#idx, (*#recv.get_index(#idx).unwrap().1) #op (#rhs))));
+                            }
+                        }
+                    }
+                }
+            }
+        }
+        if let Some(r) = rep {
+            *e = r;
+            self.n += 1;
+        }
+    }
+}
 fn mentions(b: &syn::Block, ident: &str) -> bool {
     let s = b.to_token_stream().to_string();
     s.split(|c: char| !(c.is_alphanumeric() || c == '_')).any(|w| w == ident)
@@ -149,6 +200,63 @@ impl<'a> VisitMut for Rules<'a> {
         }
     }
 
+    fn visit_block_mut(&mut self, b: &mut syn::Block) {
+        if self.ctx.on("R17") {
+            // R17: `let v = M.get_mut(K).unwrap(); *v op= E;`  ->  `let vx_old = *M.get(K).unwrap(); M.update_existing(K, vx_old op (E));`
+            let mut i = 0;
+            while i + 1 < b.stmts.len() {
+                let mut found: Option<(syn::Ident, syn::Expr, syn::Expr)> = None;
+                if let syn::Stmt::Local(l) = &b.stmts[i] {
+                    if let (syn::Pat::Ident(pi), Some(init)) = (&l.pat, &l.init) {
+                        if let syn::Expr::MethodCall(un) = &*init.expr {
+                            if un.method == "unwrap" {
+                                if let syn::Expr::MethodCall(gm) = &*un.receiver {
+                                    if gm.method == "get_mut" && gm.args.len() == 1 {
+                                        found = Some((pi.ident.clone(), (*gm.receiver).clone(), gm.args[0].clone()));
+                                    }
+                                }
+                            }
+                        }
+                    }
+                }
+                if let Some((v, recv, key)) = found {
+                    let mut rep: Option<syn::Stmt> = None;
+                    if let syn::Stmt::Expr(syn::Expr::Binary(bin), Some(_)) = &b.stmts[i + 1] {
+                        use syn::BinOp::*;
+                        let op: Option<syn::BinOp> = match bin.op {
+                            SubAssign(_) => Some(syn::parse_quote!(-)), AddAssign(_) => Some(syn::parse_quote!(+)),
+                            MulAssign(_) => Some(syn::parse_quote!(*)), DivAssign(_) => Some(syn::parse_quote!(/)), _ => None };
+                        if let (Some(op), syn::Expr::Unary(u)) = (op, &*bin.left) {
+                            if let syn::Expr::Path(p) = &*u.expr {
+                                if matches!(u.op, syn::UnOp::Deref(_)) && p.path.is_ident(&v) {
+                                    let rhs = &bin.right;
+                                    rep = Some(syn::parse_quote!({ let vx_old = *#recv.get(#key).unwrap(); #recv.update_existing(#key, vx_old #op (#rhs)); }));
+                                }
+                            }
+                        }
+                    }
+                    if let syn::Stmt::Expr(syn::Expr::Assign(asg), Some(_)) = &b.stmts[i + 1] {
+                        if let syn::Expr::Unary(u) = &*asg.left {
+                            if let syn::Expr::Path(p) = &*u.expr {
+                                if matches!(u.op, syn::UnOp::Deref(_)) && p.path.is_ident(&v) {
+                                    let rhs = &asg.right;
+                                    rep = Some(syn::parse_quote!({ #recv.update_existing(#key, #rhs); }));
+                                }
+                            }
+                        }
+                    }
+                    if let Some(r) = rep {
+                        b.stmts[i] = r;
+                        b.stmts.remove(i + 1);
+                        self.ctx.used("R17");
+                    }
+                }
+                i += 1;
+            }
+        }
+        syn::visit_mut::visit_block_mut(self, b);
+    }
+
     fn visit_pat_mut(&mut self, p: &mut syn::Pat) {
         syn::visit_mut::visit_pat_mut(self, p);
     }
@@ -156,6 +264,73 @@ impl<'a> VisitMut for Rules<'a> {
     fn visit_expr_mut(&mut self, e: &mut syn::Expr) {
         // R11 / R4 act on loops before descending
         if let syn::Expr::ForLoop(fl) = e {
+            if self.ctx.on("R13") {
+                // R13: iteration over an insertion-ordered map listed in opts.r13_maps -> index loop over get_index / set_index
+                let (recv, mode): (Option<syn::Expr>, &str) = match &*fl.expr {
+                    syn::Expr::MethodCall(m) if m.method == "iter_mut" && m.args.is_empty() => (Some((*m.receiver).clone()), "mut"),
+                    syn::Expr::MethodCall(m) if m.method == "iter" && m.args.is_empty() => (Some((*m.receiver).clone()), "ref"),
+                    syn::Expr::Reference(r) if r.mutability.is_none() => (Some((*r.expr).clone()), "ref"),
+                    other => (Some(other.clone()), "val"),
+                };
+                if let (Some(recv), syn::Pat::Tuple(tp)) = (recv, &*fl.pat) {
+                    let rtxt = norm(&recv.to_token_stream().to_string());
+                    let listed = self.ctx.opts["r13_maps"].as_array().map(|a| a.iter().any(|v| v.as_str().map(norm).as_deref() == Some(&rtxt))).unwrap_or(false);
+                    if listed && tp.elems.len() == 2 {
+                        let k = self.ctx.fresh();
+                        let nn = syn::Ident::new(&format!("vx_n{}", k), proc_macro2::Span::call_site());
+                        let ii = syn::Ident::new(&format!("vx_i{}", k), proc_macro2::Span::call_site());
+                        let kv = syn::Ident::new(&format!("vx_kv{}", k), proc_macro2::Span::call_site());
+                        let kpat = tp.elems[0].clone();
+                        let vpat = tp.elems[1].clone();
+                        let mut body = fl.body.clone();
+                        let label = fl.label.clone();
+                        let mut pre: Vec<syn::Stmt> = vec![];
+                        let is_wild = |p: &syn::Pat| matches!(p, syn::Pat::Wild(_));
+                        match mode {
+                            "mut" => {
+                                // `*v = E`  ->  recv.set_index(i, E')   and other `*v` -> current value
+                                if let syn::Pat::Ident(vid) = &vpat {
+                                    let cur: syn::Expr = syn::parse_quote!((*#recv.get_index(#ii).unwrap().1));
+                                    let mut ar = AssignReplacer { ident: vid.ident.to_string(), recv: recv.clone(), idx: ii.clone(), n: 0 };
+                                    ar.visit_block_mut(&mut body);
+                                    let mut dr = DerefReplacer { ident: vid.ident.to_string(), rep: cur, n: 0 };
+                                    dr.visit_block_mut(&mut body);
+                                    if mentions(&body, &vid.ident.to_string()) {
+                                        crate::lost(&format!("R13: `{}` of an iter_mut() map loop is used other than as `*{}`", vid.ident, vid.ident));
+                                    }
+                                } else if !is_wild(&vpat) {
+                                    crate::lost("R13: iter_mut() map loop needs a simple value binding");
+                                }
+                                if !is_wild(&kpat) {
+                                    pre.push(syn::parse_quote!(let #kpat = #recv.get_index(#ii).unwrap().0;));
+                                }
+                            }
+                            "ref" => {
+                                pre.push(syn::parse_quote!(let #kv = #recv.get_index(#ii).unwrap();));
+                                if !is_wild(&kpat) { pre.push(syn::parse_quote!(let #kpat = #kv.0;)); }
+                                if !is_wild(&vpat) { pre.push(syn::parse_quote!(let #vpat = #kv.1;)); }
+                            }
+                            _ => {
+                                pre.push(syn::parse_quote!(let #kv = #recv.get_index(#ii).unwrap();));
+                                if !is_wild(&kpat) { pre.push(syn::parse_quote!(let #kpat = #kv.0.clone();)); }
+                                if !is_wild(&vpat) { pre.push(syn::parse_quote!(let #vpat = *#kv.1;)); }
+                            }
+                        }
+                        let stmts = &body.stmts;
+                        let new: syn::Expr = syn::parse_quote!({
+                            let #nn = #recv.len();
+                            #label for #ii in 0..#nn {
+                                #(#pre)*
+                                #(#stmts)*
+                            }
+                        });
+                        *e = new;
+                        self.ctx.used("R13");
+                        syn::visit_mut::visit_expr_mut(self, e);
+                        return;
+                    }
+                }
+            }
             if self.ctx.on("R4") {
                 // for (i, x) in E.iter().enumerate() { B }
                 if let syn::Expr::MethodCall(en) = &*fl.expr {
